@@ -17,7 +17,7 @@ Quantifiers: every state `s` (block requested or not, tx manager or not, ready o
 environment satisfying `EnvOk` (4 magic bytes, hash ≥ 4 bytes), every payload `p` below 4 GiB
 (classic) and every following byte string `rest`.
 -/
-import BRV.Proofs.NodeFrame
+import BRV.Proofs.NodeLists
 import BRV.Props.C13
 
 namespace BRV.Wire
@@ -124,6 +124,92 @@ theorem C14_block_unrequested_exact (e : Env) (he : EnvOk e) (s : State) (cmd p 
     rw [List.take_append_of_le_length h80]
   exact (hBlock_unrequested e s p.length (p ++ rest) h80 (by unfold two64; omega) (by simp)
     (by rw [h80']; exact hreq)).1
+
+/-! ### count-driven lists -/
+
+/-- **C14 (inv).** An `inv` whose list is as long as its count says (empty or full, tx and block
+    items, known or new txids), in any state of the tx manager: consumed exactly — although
+    `handleInventory` never looks at the declared length and has no deferred discard. -/
+theorem C14_inv_exact (e : Env) (he : EnvOk e) (s : State) (cmd p rest : Bytes)
+    (hc : wfCmd cmd) (hp : p.length < 2 ^ 32) (hw : wfInv p)
+    (hl : lookupCmd s.table cmd = some .inventory) :
+    ExactOrEnd rest (handleMessage e s (classicFrame e cmd p ++ rest)) := by
+  rw [handleMessage_classic e he s cmd p rest hc hp, hl]
+  apply toOutcome_exact p.length p rest _ rfl
+  have := hInventory_exact s p rest hw
+  simp only [dispatch]
+  exact ⟨fun _ => this.2, by rw [this.1]; simp, by rw [this.1]; simp⟩
+
+theorem withAlt_used (e : Env) (s : State) (inp : Bytes) (o : HOut) : (withAlt e s inp o).used = o.used := by
+  unfold withAlt
+  split
+  · split <;> rfl
+  · rfl
+
+theorem varIntEnc_length_pos (k : Nat) : (varIntEnc k).length ≤ 9 := by
+  unfold varIntEnc
+  split
+  · simp
+  · split
+    · simp [leN_length]
+    · split <;> simp [leN_length]
+
+theorem headers_flatten_length (k : Nat) (hs : List Bytes) (hit : items 80 k hs) :
+    ((hs.map (· ++ [0])).flatten).length = 81 * k := by
+  induction k generalizing hs with
+  | zero => simp only [items] at hit; subst hit; simp
+  | succ k ih =>
+    simp only [items] at hit
+    obtain ⟨x, r, rfl, hx, hr'⟩ := hit
+    simp only [List.map_cons, List.flatten_cons, List.length_append, hx, List.length_cons, List.length_nil,
+      ih r hr']
+    omega
+
+/-- **C14 (headers).** A `headers` message whose list is as long as its count says (0 … any
+    number of 81-byte records), on a ready node, with or without alternate header handler:
+    consumed exactly, or the node stopped because the repository rejected a header. -/
+theorem C14_headers_exact (e : Env) (he : EnvOk e) (s : State) (cmd p rest : Bytes)
+    (hc : wfCmd cmd) (hp : p.length < 2 ^ 32) (hw : wfHeaders p) (hr : s.ready = true)
+    (hl : lookupCmd s.table cmd = some .headersTrack) :
+    ExactOrEnd rest (handleMessage e s (classicFrame e cmd p ++ rest)) := by
+  rw [handleMessage_classic e he s cmd p rest hc hp, hl]
+  apply toOutcome_exact p.length p rest _ rfl
+  simp only [dispatch]
+  unfold hHeadersTrack
+  simp only [hr, Bool.not_true, Bool.false_eq_true, ↓reduceIte]
+  obtain ⟨k, hs, hk, hit, rfl⟩ := hw
+  have hL : (varIntEnc k ++ (hs.map (· ++ [0])).flatten).length < two64 := by unfold two64; omega
+  -- the body: count, then k records
+  have hflat := headers_flatten_length k hs hit
+  have hbody : ∀ o, o = hHeadersTrackBody e s (varIntEnc k ++ (hs.map (· ++ [0])).flatten ++ rest) →
+      (o.res = .ok ∨ o.res = .stop) ∧ o.used ≤ (varIntEnc k ++ (hs.map (· ++ [0])).flatten).length := by
+    intro o ho
+    unfold hHeadersTrackBody at ho
+    rw [List.append_assoc, readVarInt_enc k _ hk] at ho
+    simp only [] at ho
+    have hlen : ((hs.map (· ++ [0])).flatten ++ rest).length = 81 * k + rest.length := by
+      rw [List.length_append, hflat]
+    have hmin : min k (((hs.map (· ++ [0])).flatten ++ rest).length / 81 + 1) = k := by
+      rw [hlen]
+      apply Nat.min_eq_left
+      have : k ≤ (81 * k + rest.length) / 81 := by
+        rw [Nat.le_div_iff_mul_le (by decide)]; omega
+      omega
+    rw [hmin] at ho
+    have ht := trackLoop_exact e s k hs hit rest
+      ((varIntEnc k ++ ((hs.map (· ++ [0])).flatten ++ rest)).length - ((hs.map (· ++ [0])).flatten ++ rest).length) []
+    simp only [] at ht
+    rw [← ho] at ht
+    refine ⟨ht.1, ?_⟩
+    have := ht.2.1
+    simp only [List.length_append, hflat] at this ⊢
+    omega
+  have hb := hbody _ rfl
+  have hfin := finish_sound (varIntEnc k ++ (hs.map (· ++ [0])).flatten).length
+    (varIntEnc k ++ (hs.map (· ++ [0])).flatten ++ rest).length _ hL (by simp) hb.2
+    (by rcases hb.1 with h | h <;> rw [h] <;> simp) (by rcases hb.1 with h | h <;> rw [h] <;> simp)
+  exact ⟨fun h => by rw [withAlt_used]; exact hfin.1 (by rw [withAlt_res] at h; exact h),
+    by rw [withAlt_res]; exact hfin.2.1, by rw [withAlt_res]; exact hfin.2.2⟩
 
 /-! ### extended framing -/
 
@@ -295,6 +381,13 @@ example :
        pingFrame env0 77)).1 = [.send "pong" 77] := by decide +kernel
 
 example : wfCmd (ascii "headers") := ⟨by decide, by decide, by decide⟩
+
+/-- well-formed lists exist: an inventory of two items, a headers message of one header, empty ones. -/
+example : wfInv ([2] ++ List.replicate 72 1) :=
+  ⟨2, [List.replicate 36 1, List.replicate 36 1], by decide, ⟨_, _, rfl, by simp, _, _, rfl, by simp, rfl⟩, by decide⟩
+example : wfInv [0] := ⟨0, [], by decide, rfl, rfl⟩
+example : wfHeaders ([1] ++ List.replicate 80 5 ++ [0]) :=
+  ⟨1, [List.replicate 80 5], by decide, ⟨_, _, rfl, by simp, rfl⟩, by decide⟩
 
 end Example
 
